@@ -116,6 +116,8 @@ def _worker(args):
                   # to the ALTERNATIVES of a list (nothing: no implied universal inside pseudo-class arguments) is visible
                   'anyuniv': anyuniv, 'anyisab': run('*|*:is(%s, %s)' % (A, B)), 'anyisa': run('*|*:is(%s)' % A), 'anyisb': run('*|*:is(%s)' % B),
                   'anynota': run('*|*:not(%s)' % A), 'anynotab': run('*|*:not(%s, %s)' % (A, B)), 'anyisba': run('*|*:is(%s, %s)' % (B, A)),
+                  # the same lists with a comment / line break before the comma (CSS-insignificant): no alternative may get lost
+                  'isab_c': run(':is(%s /* c */, %s)' % (A, B)), 'ab_c': run('%s\n/**/ ,\t%s' % (A, B)), 'notab_c': run(':not(%s /**/ ,%s/* c */)' % (A, B)),
                   'A': A, 'B': B, 'doc': '%s#%d' % (parser, d), 'ns': n}
             lines.append(json.dumps(ev))
     return lines
